@@ -96,7 +96,7 @@ func checkC17(c *Ctx) error {
 	c.Cov["traces_validated_against_impl"] = len(keys)
 	c.Cov["cli_executions"] = cli
 	c.Cov["exhaustive"] = true
-	c.Cov["rule"] = fmt.Sprintf("the Scanner model is explored for every input of 1 or 3 lines (thorough: also 3 lines with two long lines and 5 lines) with one line of length class below/at/above/double/huge (65534, 65536, 65537, 131072, %d bytes) at every position; each behaviour is replayed for 10 consumers (generate entry, entry produced by definition expansion, include file, exclude file, include with suffix replacement, format of entries, format of directive lines, renumber-tests, update-copyright, rules file for update/compare) with and without final newline; exit 0 is accepted only when every line - in particular those after the long one - shows up in the result; non-trivial = the input has a line of 65536 bytes or more", huge)
+	c.Cov["rule"] = fmt.Sprintf("the Scanner model is explored for every input of 1 or 3 lines (thorough: also 3 lines with two long lines and 5 lines) with one line of length class below/at/above/double/huge (65534, 65536, 65537, 131072, %d bytes) at every position; each behaviour is replayed for 11 consumers (generate entry from a file and from standard input, entry produced by definition expansion, include file, exclude file, include with suffix replacement, format of entries, format of directive lines, renumber-tests, update-copyright, rules file for update/compare) with and without final newline; exit 0 is accepted only when every line - in particular those after the long one - shows up in the result; non-trivial = the input has a line of 65536 bytes or more", huge)
 	c.Summary = fmt.Sprintf("states=%d cases=%d cli=%d", st.Distinct, len(keys), cli)
 	return nil
 }
@@ -159,6 +159,17 @@ func scanReplay(c *Ctx, name string, sc scanCase, allowed map[string]bool, huge 
 	}
 	t := Tree{"regex-assembly/": ""}
 	switch sc.Consumer {
+	case "stdin":
+		// the same text as in "generate", on standard input
+		writeTree(root, t)
+		atomic.AddInt64(cli, 1)
+		r := c.runCLIEnv(root, join(texts), nil, 120*time.Second, "-d", root, "regex", "generate", "-")
+		if loud(r, "generate -") {
+			return
+		}
+		if w := matchesAll(r.Stdout, texts, nil); w != "" {
+			bad("generate - exits 0 but " + w)
+		}
 	case "generate", "include", "suffix":
 		prog := join(texts)
 		want := texts
